@@ -38,7 +38,7 @@ Init == /\ l = 1
         /\ val = None
         /\ pend = [p \in GProcs |-> NoCall]
         /\ owed = {}
-        /\ cfg = [evict |-> FALSE, refuse |-> FALSE, maxCount |-> 0, maxSize |-> 0]
+        /\ cfg = [evict |-> FALSE, refuse |-> FALSE, maxCount |-> 0, maxSize |-> 0, entry |-> 0]
 
 Line == Trace[l]
 
@@ -47,7 +47,8 @@ Reset == /\ Line.e = "reset"
          /\ \A p \in GProcs : pend[p] = NoCall      \* every call of the previous segment returned
          /\ owed = {}                                \* every eviction was reported exactly once
          /\ val' = None /\ owed' = {}
-         /\ cfg' = [evict |-> Line.evict, refuse |-> Line.refuse, maxCount |-> Line.maxCount, maxSize |-> Line.maxSize]
+         /\ cfg' = [evict |-> Line.evict, refuse |-> Line.refuse, maxCount |-> Line.maxCount, maxSize |-> Line.maxSize,
+                     entry |-> Line.entry]
          /\ UNCHANGED pend
          /\ l' = l + 1
 
@@ -72,8 +73,11 @@ Evicted == /\ Line.e = "evicted"
            /\ UNCHANGED <<val, pend, cfg>>
            /\ l' = l + 1
 
-(* A Stats() snapshot: the C09 bounds hold in it (0 = unlimited). *)
+(* A Stats() snapshot: the C09 bounds hold in it (0 = unlimited), and it is a *)
+(* snapshot of ONE state: when every entry has the same length (cfg.entry),   *)
+(* Size = Count * entry, so count and size read at different moments show.    *)
 StatsLine == /\ Line.e = "stats"
+             /\ (cfg.entry = 0 \/ Line.size = Line.count * cfg.entry)
              /\ (cfg.maxCount = 0 \/ Line.count <= cfg.maxCount)
              /\ (cfg.maxSize = 0 \/ Line.size <= cfg.maxSize)
              /\ Line.count >= 0 /\ Line.size >= 0
